@@ -119,6 +119,11 @@ func (c Enum) Validate(a jbytes.Bytes) {
 		if aa.enumItemValue == b.enumItemValue {
 			return
 		}
+		// Numbers are compared by their values, not by the way they are written.
+		if aa.jsonType == b.jsonType && aa.jsonType != jjson.TypeString &&
+			sameNumber(jbytes.Bytes(aa.value), jbytes.Bytes(b.value)) {
+			return
+		}
 	}
 	panic(errors.ErrDoesNotMatchAnyOfTheEnumValues)
 }
